@@ -128,6 +128,7 @@ class Ctx:
         self.records: list[Rec] = []
         self.results: list = []  # (clause, verdict(bool|SymBool), info)
         self.witnesses: set = set()
+        self.tags: set = set()   # trace predicates a known finding may require (e.g. 'timeout_during_inline_child')
         self.labels: dict = {}
         self.events: dict = {}
         self.first_dispatch: dict = {}
@@ -376,6 +377,9 @@ class Ctx:
 
     def witness(self, name):
         self.witnesses.add(name)
+
+    def tag(self, name):
+        self.tags.add(name)
 
     def digest(self):
         h = hashlib.sha1()
